@@ -1,7 +1,7 @@
 """Minimal parser for TLA+ values as printed by TLC (records, sequences, sets, strings, ints, booleans)."""
 import re
 
-_tok = re.compile(r'\s*(<<|>>|\|->|[\[\]{}(),]|"(?:[^"\\]|\\.)*"|-?\d+|[A-Za-z_][A-Za-z0-9_]*)')
+_tok = re.compile(r'\s*(<<|>>|\|->|:>|@@|[\[\]{}(),]|"(?:[^"\\]|\\.)*"|-?\d+|[A-Za-z_][A-Za-z0-9_]*)')
 
 def tokenize(s):
     pos, out = 0, []
@@ -18,6 +18,9 @@ def parse(s):
     toks = tokenize(s)
     v, i = _val(toks, 0)
     return v
+
+def json_key(k):
+    return k if isinstance(k, (str, int)) else str(k)
 
 def _val(t, i):
     x = t[i]
@@ -39,6 +42,14 @@ def _val(t, i):
             k = t[i]; assert t[i+1] == '|->', t[i:i+3]
             v, i = _val(t, i + 2); out[k] = v
             if t[i] == ',': i += 1
+        return out, i + 1
+    if x == '(':     # function printed as (k1 :> v1 @@ k2 :> v2)
+        i += 1; out = {}
+        while t[i] != ')':
+            k, i = _val(t, i); assert t[i] == ':>', t[i:i+3]
+            v, i = _val(t, i + 1)
+            out[json_key(k)] = v
+            if t[i] == '@@': i += 1
         return out, i + 1
     if x.startswith('"'):
         return x[1:-1], i + 1
@@ -81,19 +92,32 @@ def behaviour_actions(path):
     return out
 
 def behaviour_with_states(path):
-    """Like behaviour_actions but also returns the (single-line) variable values of each state."""
-    out, cur = [], None
+    """Like behaviour_actions but also returns the variable values of each state (values may span lines)."""
+    out, cur, key, buf = [], None, None, []
+    def flush():
+        nonlocal key, buf
+        if cur is not None and key is not None:
+            try:
+                cur[2][key] = parse(' '.join(buf))
+            except Exception:
+                pass
+        key, buf = None, []
     for line in open(path):
+        line = line.rstrip('\n')
         m = _act.match(line)
         if m:
+            flush()
             name, args = m.group(1), m.group(2)
             cur = [name, [parse(a) for a in split_args(args)] if args else [], {}]
             out.append(cur)
             continue
-        m2 = re.match(r'^/\\ (\w+) = (.*)$', line.rstrip('\n'))
-        if m2 and cur is not None:
-            try:
-                cur[2][m2.group(1)] = parse(m2.group(2))
-            except Exception:
-                pass
+        m2 = re.match(r'^/\\ (\w+) = (.*)$', line)
+        if m2:
+            flush()
+            key, buf = m2.group(1), [m2.group(2)]
+        elif line.strip() == '' or line.startswith('STATE_') or line.startswith('----') or line.startswith('===='):
+            flush()
+        elif key is not None:
+            buf.append(line.strip())
+    flush()
     return out
